@@ -169,6 +169,8 @@ Fixpoint c16_resyncs (eps : list episode) (synced seen_garbage : bool) (outs : l
 Inductive sim_ev : Set :=
 | EvSent (t : telegram)
 | EvGarbage (must : bool)
+| EvNop                            (* a transmit call that sent nothing, or the second piece of a telegram already
+                                      queued by EvSent: no effect on what the receiver must be shown *)
 | EvPoll (flush : bool) (o : obs).
 
 Definition bytes_of (ts : list telegram) : nat := fold_right (fun t a => (frame_len t + a)%nat) 0%nat ts.
@@ -222,6 +224,7 @@ Fixpoint c16_sim_walk (all : bool) (m : sim_mon) (evs : list sim_ev) : option si
       c16_sim_walk all (if m_synced m then mkMon true false (m_queue m ++ [t]) (m_held m) (m_checked m) else m) evs'
   | EvGarbage must :: evs' =>
       c16_sim_walk all (mkMon false (m_must m || must) [] 0 (m_checked m)) evs'
+  | EvNop :: evs' => c16_sim_walk all m evs'
   | EvPoll flush o :: evs' =>
       match sim_poll_ok all m flush o with
       | Some m' => c16_sim_walk all m' evs'
